@@ -240,6 +240,10 @@ pub fn run(p: &Params) -> Outcome {
             }
         }
         for i in 0..per {
+            if ctx.saturated() {
+                ctx.count("stopped_early_after_20000_violations");
+                break;
+            }
             let number = if i % 2 == 0 { 1059 } else { 1065 };
             let (e, class) = random_list(&mut rng, number);
             check(ctx, number, &e, class);
